@@ -169,7 +169,7 @@ def install():
       if not REC.active:
         return orig(self, row_id, value)
       if REC.depth_set == 0:
-        REC.point('set', (self.table_id, self.col_id, row_id, value))
+        REC.point('set', (self.table_id, self.col_id, row_id, value, bool(self.is_private())))
       REC.depth_set += 1
       try:
         return orig(self, row_id, value)
@@ -181,7 +181,7 @@ def install():
     @functools.wraps(orig)
     def w(self, *a):
       if REC.active and REC.depth_set == 0:
-        REC.point(pname, (self.table_id, self.col_id))
+        REC.point(pname, (self.table_id, self.col_id, bool(self.is_private())))
       REC.depth_set += 1
       try:
         return orig(self, *a)
